@@ -374,6 +374,18 @@ func runC07(r *vhlib.Run) {
 		if si > 0 && r.Quick() {
 			d = 2
 		}
+		if !r.Quick() {
+			// every case re-opens the stream in the model: the deepest enumeration only on
+			// the boundary-rich first stream, shallower ones on larger streams
+			switch {
+			case len(st.Sink) > 4000:
+				d = 1
+			case len(st.Sink) > 400:
+				d = 2
+			case si > 0:
+				d = 3
+			}
+		}
 		var rec func(prefix []xrOp, k int)
 		rec = func(prefix []xrOp, k int) {
 			if len(prefix) > 0 {
